@@ -468,6 +468,36 @@ def mixed_radix(prog: Program, rep: Report):
                                                    f"the label is composed with stride {S!r} and modulus {K!r}, but getshape_class "
                                                    f"declares {P!r} classes: the composed labels do not fill [0, {P!r}) (gaps, or "
                                                    f"labels beyond the declared range)", line=x.lineno, clause="C16.1")
+                                    # the stride counts the values of the low digit: where that digit is a quotient 'x // k', a
+                                    # class count D yields ceil(D / k) values - a stride computed as D // k is one short whenever
+                                    # k does not divide D, and two superclasses collide on one label
+                                    sname = b.attr if isinstance(b, ast.Attribute) and isinstance(b.value, ast.Name) and \
+                                        b.value.id == fa.self_name else None
+                                    init = C.methods.get("__init__")
+                                    if sname is None or init is None:
+                                        continue
+                                    ia_ = fa_of(prog, init)
+                                    sdefs = [(m_, v_) for m_, var_, v_ in ia_.stores() if var_ == f"{ia_.self_name}.{sname}" and v_ is not None]
+                                    divisors = set()
+                                    for f2 in C.methods.values():
+                                        for y in ast.walk(f2.node):
+                                            if isinstance(y, ast.BinOp) and isinstance(y.op, ast.FloorDiv) and f2 is not init and \
+                                                    isinstance(y.right, ast.Attribute) and isinstance(y.right.value, ast.Name):
+                                                divisors.add(y.right.attr)
+                                    for m_, v_ in sdefs:
+                                        if isinstance(v_, ast.BinOp) and isinstance(v_.op, ast.FloorDiv):
+                                            dv = v_.right
+                                            dname = dv.id if isinstance(dv, ast.Name) else (dv.attr if isinstance(dv, ast.Attribute) else None)
+                                            if dname in divisors:
+                                                rep.bad("G6.label-radix", init, f"stride:{sname}",
+                                                        f"self.{sname} = {ast.unparse(v_)[:60]} (line {v_.lineno}) counts the values of the low "
+                                                        f"digit '... // self.{dname}' with a floor division: a class count that is not a multiple "
+                                                        f"of {dname} has one more quotient value, so the last group shares its label with the "
+                                                        f"first group of the next split (and exceeds the declared range without splits)",
+                                                        line=v_.lineno, clause="C16.1")
+                                        elif isinstance(v_, ast.Call) and getattr(v_.func, "attr", getattr(v_.func, "id", "")) == "ceil":
+                                            rep.ok("G6.label-radix", init, f"stride:{sname}", "the stride is a rounded-up quotient",
+                                                   line=v_.lineno, clause="C16.1", nontrivial=False)
     rep.floor("two-digit label compositions", n, 0)
 
 
